@@ -128,7 +128,7 @@ type MyI64 int64
 
 var c03Targets = []reflect.Type{
 	reflect.TypeOf(false), reflect.TypeOf(int(0)), reflect.TypeOf(int8(0)), reflect.TypeOf(int16(0)), reflect.TypeOf(int32(0)), reflect.TypeOf(int64(0)),
-	reflect.TypeOf(uint(0)), reflect.TypeOf(uint8(0)), reflect.TypeOf(uint16(0)), reflect.TypeOf(uint32(0)), reflect.TypeOf(uint64(0)),
+	reflect.TypeOf(uint(0)), reflect.TypeOf(uint8(0)), reflect.TypeOf(uint16(0)), reflect.TypeOf(uint32(0)), reflect.TypeOf(uint64(0)), reflect.TypeOf(uintptr(0)),
 	reflect.TypeOf(float32(0)), reflect.TypeOf(float64(0)), reflect.TypeOf(""), reflect.TypeOf(time.Duration(0)),
 	reflect.TypeOf(MyI8(0)), reflect.TypeOf(MyU16(0)), reflect.TypeOf(MyF32(0)), reflect.TypeOf(MyStr("")), reflect.TypeOf(MyBool(false)), reflect.TypeOf(MyI64(0)),
 }
@@ -170,7 +170,7 @@ func truncToInt(v *big.Float) *big.Int {
 
 func intRange(t reflect.Type) (lo, hi *big.Int) {
 	bits := t.Bits()
-	if t.Kind() >= reflect.Uint && t.Kind() <= reflect.Uint64 {
+	if t.Kind() >= reflect.Uint && t.Kind() <= reflect.Uintptr {
 		return big.NewInt(0), new(big.Int).Sub(new(big.Int).Lsh(big.NewInt(1), uint(bits)), big.NewInt(1))
 	}
 	hi = new(big.Int).Sub(new(big.Int).Lsh(big.NewInt(1), uint(bits-1)), big.NewInt(1))
@@ -182,7 +182,7 @@ func c03Rule(s c03Source, t reflect.Type) c03Expect {
 	isDur := t == reflect.TypeOf(time.Duration(0))
 	k := t.Kind()
 	isInt := k >= reflect.Int && k <= reflect.Int64 && !isDur
-	isUint := k >= reflect.Uint && k <= reflect.Uint64
+	isUint := k >= reflect.Uint && k <= reflect.Uintptr
 	isFloat := k == reflect.Float32 || k == reflect.Float64
 	v, special := s.exact()
 	switch {
@@ -356,7 +356,7 @@ func sameStored(got reflect.Value, e c03Expect) (bool, string) {
 	case int64:
 		return got.Kind() >= reflect.Int && got.Kind() <= reflect.Int64 && got.Int() == w, fmt.Sprint(got.Interface())
 	case uint64:
-		return got.Kind() >= reflect.Uint && got.Kind() <= reflect.Uint64 && got.Uint() == w, fmt.Sprint(got.Interface())
+		return got.Kind() >= reflect.Uint && got.Kind() <= reflect.Uintptr && got.Uint() == w, fmt.Sprint(got.Interface())
 	case float64:
 		if got.Kind() != reflect.Float32 && got.Kind() != reflect.Float64 {
 			return false, fmt.Sprint(got.Interface())
@@ -559,7 +559,7 @@ func init() {
 	core.Register(&core.Check{
 		ID:    "C03",
 		Level: "exploration",
-		Rule:  "every source value of the boundary set (for int64/uint64/float64 settings: 0, +-1, +-(2^k-1), +-2^k, +-(2^k+1) for k in {7,8,15,16,31,32,53,63,64}, their float neighbours, fractions, MaxFloat32/64 and neighbours, subnormals, NaN, +-Inf, second counts around MaxInt64/1e9; for string settings every spelling of those in decimal, +, 0x, 0b, 0o, leading 0, .0, e0, 's' suffix, underscores, exponents, blanks, bool and duration words) x 21 target types (15 primitive kinds incl. time.Duration + 6 named types) x {field, pointer field, via ${ref}} and the 5 typed getters; oracle on math/big: success => the stored value is exactly rule(v); rule(v) undefined => error; non-trivial = the pair is a conversion the statement defines",
+		Rule:  "every source value of the boundary set (for int64/uint64/float64 settings: 0, +-1, +-(2^k-1), +-2^k, +-(2^k+1) for k in {7,8,15,16,31,32,53,63,64}, their float neighbours, fractions, MaxFloat32/64 and neighbours, subnormals, NaN, +-Inf, second counts around MaxInt64/1e9; for string settings every spelling of those in decimal, +, 0x, 0b, 0o, leading 0, .0, e0, 's' suffix, underscores, exponents, blanks, bool and duration words) x 22 target types (16 primitive kinds incl. uintptr and time.Duration + 6 named types) x {field, pointer field, via ${ref}} and the 5 typed getters; oracle on math/big: success => the stored value is exactly rule(v); rule(v) undefined => error; non-trivial = the pair is a conversion the statement defines",
 		Assumptions: []string{
 			"boundary values of every sized type and every syntax class, not all 2^64 values",
 			"the statement is an either/or: refusing a representable value is not an alarm (successes per cell are visible in the outcome labels); conversions the statement does not define (bool<->number, text form of floats, non-strconv bool words) are executed but not compared",
